@@ -62,6 +62,17 @@ Params(f) ==
                        shear_mod |-> Pick({<<25, 1>>, <<20, 1>>}, {})]
     [] f = "Rod1D" -> [kappa |-> Pick({<<1, 1>>, <<1, 2>>}, {}), L |-> Pick({<<2, 1>>, <<3, 1>>}, {}), TL |-> Pick({<<3, 1>>, <<1, 1>>}, {}),
                        TR |-> Pick({<<3, 1>>, <<4, 1>>}, {}), bc |-> {"BC1", "BC2", "BC3", "BC4"}]
+    [] f = "RodNH" -> \* non-homogeneous and Robin boundary conditions: alpha T + beta dT/dx = gamma at both ends
+                      [kappa |-> Pick({<<1, 1>>, <<1, 2>>}, {}), L |-> Pick({<<2, 1>>}, {<<3, 1>>}), TL |-> Pick({<<3, 1>>, <<1, 1>>}, {}),
+                       TR |-> Pick({<<3, 1>>, <<4, 1>>}, {}), bc |-> {"BC1", "BC2", "BC3", "BC4", "RobinA", "RobinB"},
+                       g1 |-> Pick({<<2, 1>>, <<0, 1>>}, {<<-1, 1>>}), g2 |-> Pick({<<1, 1>>, <<0, 1>>}, {<<2, 1>>})]
+    [] f = "Sandwich" -> [kind |-> {"PlanarSandwich", "PlanarSandwichHot", "PlanarSandwichHalf"}, kappa |-> Pick({<<1, 1>>, <<1, 2>>}, {}),
+                          L |-> Pick({<<2, 1>>, <<3, 1>>}, {}), TL |-> Pick({<<0, 1>>, <<3, 1>>}, {}), TR |-> Pick({<<0, 1>>, <<2, 1>>}, {}),
+                          b1 |-> Pick({<<1, 1>>, <<2, 1>>}, {}), b2 |-> Pick({<<0, 1>>, <<1, 2>>}, {})]
+    [] f = "Rectangle" -> [kappa |-> Pick({<<1, 1>>, <<1, 2>>}, {}), a |-> Pick({<<2, 1>>, <<3, 1>>}, {}), b |-> Pick({<<2, 1>>, <<1, 1>>}, {}),
+                           Ttop |-> Pick({<<1, 1>>, <<3, 1>>}, {})]
+    [] f = "Hutchens2" -> [k |-> Pick({<<1, 1>>, <<2, 1>>}, {}), g0 |-> Pick({<<3, 1>>, <<0, 1>>}, {}), Tb |-> Pick({<<5, 1>>, <<2, 1>>}, {}),
+                           T0 |-> Pick({<<2, 1>>, <<1, 1>>}, {}), TL |-> Pick({<<1, 1>>, <<3, 1>>}, {}), b |-> Pick({<<1, 1>>, <<3, 2>>}, {}), L |-> Pick({<<2, 1>>, <<1, 1>>}, {})]
     [] f = "Hutchens1" -> [k |-> Pick({<<1, 1>>, <<2, 1>>}, {}), cp |-> Pick({<<1, 1>>, <<1, 2>>}, {}), rho |-> Pick({<<1, 1>>, <<8, 1>>}, {}),
                            Tb |-> Pick({<<5, 1>>, <<3, 1>>}, {}), T0 |-> Pick({<<1, 1>>, <<2, 1>>}, {}), b |-> Pick({<<1, 1>>, <<3, 2>>}, {})]
     [] f = "Cog1"  -> [geometry |-> Geo, gamma |-> Gam, rho0 |-> Rho, temp0 |-> Temp, b |-> Pick({<<6, 5>>, <<-1, 2>>}, {<<0, 1>>}), Gamma |-> BigG]
@@ -98,14 +109,14 @@ TimesOf(f, p) ==
     [] f = "EPpiston" -> Pick({<<1, 50>>, <<1, 20>>}, {})
     [] f \in {"Kenamond1", "Kenamond2", "Kenamond3", "DSDcyl"} -> {<<1, 1>>}      \* burn-time fields do not depend on t
     [] f = "Blake" -> Pick({<<1, 20>>, <<1, 10>>}, {})
-    [] f \in {"Rod1D", "Hutchens1"} -> Pick({<<1, 10>>, <<1, 2>>}, {<<1, 100>>})
+    [] f \in {"Rod1D", "Hutchens1", "RodNH", "Sandwich", "Rectangle", "Hutchens2"} -> Pick({<<1, 10>>, <<1, 2>>}, {<<1, 100>>})
     [] OTHER -> Times
 
 (* configurations whose closed form is defined (no division by zero, no  *)
 (* fractional power of a negative number): the mathematics, not a        *)
 (* documented restriction of the solver                                  *)
 Geom(f, p) == IF "geometry" \in DOMAIN p THEN p.geometry
-              ELSE IF f \in RiemannFams \cup {"EHEP", "Mader", "EPpiston", "Rod1D"} THEN 1 ELSE IF f = "DSDcyl" THEN 2 ELSE 3
+              ELSE IF f \in RiemannFams \cup {"EHEP", "Mader", "EPpiston", "Rod1D", "RodNH", "Sandwich"} THEN 1 ELSE IF f = "DSDcyl" THEN 2 ELSE 3
 Defined(f, p, t) ==
   LET k == Geom(f, p) - 1 IN
   CASE f \in RiemannFams -> /\ ~(QEq(p.pl, p.pr) /\ QEq(p.ul, p.ur))                   \* a pure contact has no acoustic waves
@@ -113,6 +124,7 @@ Defined(f, p, t) ==
     [] f = "Sedov" -> QLt(p.omega, <<Geom(f, p), 1>>)
     [] f = "DSDcyl" -> QLt(p.r_1, p.r_2) /\ QLt(QDiv(p.alpha_1, p.D_CJ_1), p.r_1) /\ QLt(QDiv(p.alpha_2, p.D_CJ_2), p.r_2)
     [] f = "Kenamond2" -> QLe(p.D2, p.D1)
+    [] f = "RodNH" -> p.bc = "BC2" => QEq(p.g1, p.g2)          \* documented: equal fluxes at both ends
     [] f = "Cog2"  -> ~QEq(p.b, <<-2, 1>>)
     [] f = "Cog3"  -> ~QEq(p.v, <<k - 1, 1>>) /\ ~QEq(p.v, <<0, 1>>)
     [] f = "Cog6"  -> ~QEq(p.b, <<-2, 1>>)
